@@ -186,9 +186,9 @@ type caseCtx struct {
 	kinds  map[string]bool
 }
 
-func genEvent(r *verifx.Rng, base float64) evSpec {
+func genEvent(r *verifx.Rng, base float64, topNum int) evSpec {
 	e := evSpec{}
-	if r.Chance(2, 5) {
+	if r.Chance(topNum, 5) {
 		e.top = topPool[r.Intn(len(topPool))]
 	}
 	e.host = hostPool[r.Intn(len(hostPool))]
@@ -456,8 +456,9 @@ func genCase(h *verifx.H, r *verifx.Rng) caseSpec {
 	sp.key = key
 	base := float64(r.Range(-5, 12))
 	nev := r.Range(1, 6)
+	topNum := []int{0, 2, 4}[r.Pick(2, 3, 3)] // rows without string tops, with a few, with many
 	for i := 0; i < nev; i++ {
-		sp.events = append(sp.events, genEvent(r, base))
+		sp.events = append(sp.events, genEvent(r, base, topNum))
 	}
 	sp.sf = sfPool[r.Intn(len(sfPool))]
 	sp.aggHost = []tag{{I: 1000}, {I: 1000}, {S: "agenthost"}}[r.Intn(3)]
@@ -465,77 +466,128 @@ func genCase(h *verifx.H, r *verifx.Rng) caseSpec {
 }
 
 // corpus: minimised past failures (run first by checks/C02.py with -mode=corpus)
-func corpus() []caseSpec {
+func corpus() [][]caseSpec {
 	k := func(metric int32) data_model.Key { return data_model.Key{Metric: metric, Timestamp: bucketTs} }
-	return []caseSpec{
+	val := func(top tag, v float64) evSpec { return evSpec{kind: 'v', top: top, vals: []float64{v}} }
+	return [][]caseSpec{
 		// F1: one counter-only event + one value event 7: compact form dropped the sum, aggregator derived 7*2
-		{key: k(101), noSample: true, sf: 1, aggHost: tag{I: 1000}, events: []evSpec{{kind: 'c', count: 1}, {kind: 'v', vals: []float64{7}}}},
+		{{key: k(101), noSample: true, sf: 1, aggHost: tag{I: 1000}, events: []evSpec{{kind: 'c', count: 1}, {kind: 'v', vals: []float64{7}}}}},
 		// F1 with a sample factor and inside a string-top entry
-		{key: k(102), noSample: true, sf: 3, aggHost: tag{I: 1000}, events: []evSpec{{kind: 'v', top: tag{S: "x"}, vals: []float64{5, 5}}, {kind: 'c', top: tag{S: "x"}, count: 2}}},
-		// F1 through the counter of a value event that is larger than the number of values is NOT a defect (sum is rescaled): stays compact
-		{key: k(103), noSample: true, sf: 2, aggHost: tag{I: 1000}, events: []evSpec{{kind: 'v', vals: []float64{7}, count: 4}}},
+		{{key: k(102), noSample: true, sf: 3, aggHost: tag{I: 1000}, events: []evSpec{{kind: 'v', top: tag{S: "x"}, vals: []float64{5, 5}}, {kind: 'c', top: tag{S: "x"}, count: 2}}}},
+		// a value event whose counter is larger than the number of values is NOT a defect (sum is rescaled): stays compact
+		{{key: k(103), noSample: true, sf: 2, aggHost: tag{I: 1000}, events: []evSpec{{kind: 'v', vals: []float64{7}, count: 4}}}},
 		// F12: min value without host tag, max value with host tag 9: min host (and counter host) arrived as 9
-		{key: k(104), noSample: true, sf: 1, aggHost: tag{I: 1000}, events: []evSpec{{kind: 'v', vals: []float64{3}}, {kind: 'v', vals: []float64{5}, host: tag{I: 9}}}},
+		{{key: k(104), noSample: true, sf: 1, aggHost: tag{I: 1000}, events: []evSpec{{kind: 'v', vals: []float64{3}}, {kind: 'v', vals: []float64{5}, host: tag{I: 9}}}}},
 		// F12 with a string host and the sampler path (NoSampleAgent = false)
-		{key: k(105), noSample: false, sf: 1, aggHost: tag{S: "agenthost"}, events: []evSpec{{kind: 'v', vals: []float64{5}, host: tag{S: "hosta"}}, {kind: 'c', count: 1}, {kind: 'v', vals: []float64{3}}}},
+		{{key: k(105), noSample: false, sf: 1, aggHost: tag{S: "agenthost"}, events: []evSpec{{kind: 'v', vals: []float64{5}, host: tag{S: "hosta"}}, {kind: 'c', count: 1}, {kind: 'v', vals: []float64{3}}}}},
+		// seeded C02-3 shape: two rows with two string tops each in ONE bucket (keepF must not share the TopElement slice)
+		{{key: k(201), noSample: true, sf: 1, aggHost: tag{I: 1000}, events: []evSpec{val(tag{S: "a"}, 1), val(tag{S: "b"}, 2)}},
+			{key: k(202), noSample: true, sf: 2, aggHost: tag{I: 1000}, events: []evSpec{val(tag{S: "c"}, 3), val(tag{I: 4}, 4)}}},
+		// the same through the sampler (rows kept in metric order): 2 tops, then 1 top (fits the capacity), then none
+		{{key: k(301), sf: 1, aggHost: tag{I: 1000}, events: []evSpec{val(tag{S: "a"}, 1), val(tag{S: "b"}, 2), {kind: 'c', count: 1}}},
+			{key: k(302), sf: 1, aggHost: tag{I: 1000}, events: []evSpec{val(tag{S: "c"}, 3)}},
+			{key: k(303), sf: 1, aggHost: tag{I: 1000}, events: []evSpec{val(tag{}, 5)}}},
 	}
 }
 
-func runCase(h *verifx.H, r *verifx.Rng, sh *agent.VerifC02Shard, sp caseSpec) {
-	c := &caseCtx{h: h, rng: rand.New(r.U64()), kinds: map[string]bool{}}
-	c.hasPct = sp.hasPct
-	noSample := sp.noSample
-	key := sp.key
-	meta := &format.MetricMetaValue{MetricID: key.Metric, NoSampleAgent: noSample, HasPercentiles: c.hasPct,
-		EffectiveResolution: 1, EffectiveWeight: 1}
-	h.Op("key %d %d %d %s %s", key.Metric, key.Timestamp, bucketTs, sparseInts(key.Tags[:]), sparseStrs(key.STags[:]))
-	h.Obs("key %s", keyStr(&key))
+// rowRun is one row of the bucket: built in phase 1, looked up in the decoded bucket and merged in phase 3
+type rowRun struct {
+	sp       caseSpec
+	key      data_model.Key
+	item     *data_model.MultiItem
+	kinds    map[string]bool
+	tailSnap snap
+	topSnap  map[tag]snap
+	topKeys  []tag
+	centOps  []string
+}
+
+// runBucket: phase 1 builds every row of the bucket with the real API; phase 2 runs the real sampleBucket ONCE over the
+// whole bucket and serialises the SourceBucket3 only after all rows were kept (as preProcess does), then reads it back;
+// phase 3 merges every decoded row on the aggregator side.  The model treats the rows independently.
+func runBucket(h *verifx.H, r *verifx.Rng, sh *agent.VerifC02Shard, specs []caseSpec) {
+	rng := rand.New(r.U64())
 	bucket := &data_model.MetricsBucket{Time: bucketTs}
-	item, _ := bucket.GetOrCreateMultiItem(&key, meta, nil)
-	c.item = item
-	// ---- events
-	for _, e := range sp.events {
-		c.applyEvent(e)
-	}
-	// ---- snapshot for the oracle, observed centroids for the model
-	tailSnap := takeSnap(&item.Tail)
-	topSnap := map[tag]snap{}
-	if item.Tail.ValueTDigest != nil {
-		h.Op("cents - %s", viewDigest(&item.Tail).str(true))
-	}
-	topKeys := make([]tag, 0, len(item.Top))
-	for k := range item.Top {
-		topKeys = append(topKeys, k)
-	}
-	sort.Slice(topKeys, func(i, j int) bool { return tagStr(topKeys[i]) < tagStr(topKeys[j]) })
-	for _, k := range topKeys {
-		mv := item.Top[k]
-		topSnap[k] = takeSnap(mv)
-		if mv.ValueTDigest != nil {
-			h.Op("cents %s %s", tagStr(k), viewDigest(mv).str(true))
+	rows := make([]*rowRun, 0, len(specs))
+	withTops := 0
+	for _, sp := range specs {
+		c := &caseCtx{h: h, rng: rng, kinds: map[string]bool{}, hasPct: sp.hasPct}
+		key := sp.key
+		meta := &format.MetricMetaValue{MetricID: key.Metric, NoSampleAgent: sp.noSample, HasPercentiles: sp.hasPct,
+			EffectiveResolution: 1, EffectiveWeight: 1}
+		h.Op("key %d %d %d %s %s", key.Metric, key.Timestamp, bucketTs, sparseInts(key.Tags[:]), sparseStrs(key.STags[:]))
+		h.Obs("key %s", keyStr(&key))
+		item, _ := bucket.GetOrCreateMultiItem(&key, meta, nil)
+		c.item = item
+		for _, e := range sp.events {
+			c.applyEvent(e)
 		}
+		// snapshot for the oracle, observed centroids for the model
+		rr := &rowRun{sp: sp, key: key, item: item, kinds: c.kinds, tailSnap: takeSnap(&item.Tail), topSnap: map[tag]snap{}}
+		if item.Tail.ValueTDigest != nil {
+			rr.centOps = append(rr.centOps, fmt.Sprintf("cents - %s", viewDigest(&item.Tail).str(true)))
+		}
+		for k := range item.Top {
+			rr.topKeys = append(rr.topKeys, k)
+		}
+		sort.Slice(rr.topKeys, func(i, j int) bool { return tagStr(rr.topKeys[i]) < tagStr(rr.topKeys[j]) })
+		for _, k := range rr.topKeys {
+			mv := item.Top[k]
+			rr.topSnap[k] = takeSnap(mv)
+			if mv.ValueTDigest != nil {
+				rr.centOps = append(rr.centOps, fmt.Sprintf("cents %s %s", tagStr(k), viewDigest(mv).str(true)))
+			}
+		}
+		if len(rr.topKeys) > 0 {
+			withTops++
+		}
+		item.SF = sp.sf
+		if !sp.noSample {
+			item.SF = 1 // decided by the sampler; read back below
+		}
+		rows = append(rows, rr)
 	}
-	// ---- send: the real sampleBucket (keepF), real TL bytes
-	sf := sp.sf
-	if !noSample {
-		sf = 1 // decided by the sampler; read back below
+	h.Stat(fmt.Sprintf("bucket.rows%d", len(rows)), 1)
+	h.Stat(fmt.Sprintf("bucket.rows-with-tops%d", withTops), 1)
+	if withTops >= 2 {
+		h.NonTrivial("bucket-with-several-top-rows")
 	}
-	item.SF = sf
-	sb := sh.VerifC02SampleBucket(bucket, c.rng)
-	sf = item.SF
-	h.Stat("sf."+q(sf), 1)
-	h.Op("send %s %s", q(sf), b2s(c.hasPct))
-	if len(sb.Metrics) != 1 {
-		h.Obs("tl metrics=%d", len(sb.Metrics))
-		return
-	}
+	// ---- send: the real sampleBucket (keepF) over the whole bucket, then the real TL bytes
+	sb := sh.VerifC02SampleBucket(bucket, rng)
 	wire := sb.WriteTL1Boxed(nil)
 	var rb tlstatshouse.SourceBucket3Bytes
-	if _, err := rb.ReadTL1Boxed(wire); err != nil || len(rb.Metrics) != 1 {
+	if _, err := rb.ReadTL1Boxed(wire); err != nil {
 		h.Obs("tl read-error")
 		return
 	}
-	it := &rb.Metrics[0]
+	byMetric := map[int32][]*tlstatshouse.MultiItemBytes{}
+	for i := range rb.Metrics {
+		byMetric[rb.Metrics[i].Metric] = append(byMetric[rb.Metrics[i].Metric], &rb.Metrics[i])
+	}
+	if len(rb.Metrics) != len(rows) {
+		h.Viol("agg-row-count", "bucket of %d rows arrived with %d rows", len(rows), len(rb.Metrics))
+	}
+	for i, rr := range rows {
+		h.Op("sel %d", i)
+		for _, op := range rr.centOps {
+			h.Op("%s", op)
+		}
+		items := byMetric[rr.key.Metric]
+		if len(items) != 1 {
+			h.Viol("agg-row-count", "row of metric %d arrived %d times", rr.key.Metric, len(items))
+			continue
+		}
+		mergeRow(h, rng, rr, items[0])
+	}
+}
+
+func mergeRow(h *verifx.H, rng *rand.Rand, rr *rowRun, it *tlstatshouse.MultiItemBytes) {
+	sp, key, item := rr.sp, rr.key, rr.item
+	tailSnap, topSnap, topKeys := rr.tailSnap, rr.topSnap, rr.topKeys
+	c := &caseCtx{h: h, rng: rng, kinds: rr.kinds, hasPct: sp.hasPct}
+	sf := item.SF
+	h.Stat("sf."+q(sf), 1)
+	h.Op("send %s %s", q(sf), b2s(c.hasPct))
 	skeys := make([]string, len(it.Skeys))
 	for i, s := range it.Skeys {
 		skeys[i] = string(s)
@@ -774,11 +826,17 @@ func main() {
 		}()
 		if h.Mode == "corpus" {
 			if cs := corpus(); i < len(cs) {
-				runCase(h, r, sh, cs[i])
+				runBucket(h, r, sh, cs[i])
 			}
 			return
 		}
-		runCase(h, r, sh, genCase(h, r))
+		n := r.Pick(2, 3, 3, 2, 1, 1) + 1 // 1..6 rows in the bucket
+		specs := make([]caseSpec, n)
+		for j := range specs {
+			specs[j] = genCase(h, r)
+			specs[j].key.Metric = int32(100 + 1000*j + r.Intn(1000)) // distinct metrics: rows are matched by metric id
+		}
+		runBucket(h, r, sh, specs)
 	})
 	h.Done()
 }
